@@ -369,8 +369,12 @@ func e2Imports(fx *Fixture, work string, rep *Report, prop string, depth int) {
 			}
 			if !ok || g != q {
 				mismatches++
-				if prop == "C11" || prop == "C14" {
-					fatalf("E2 conformance: registry BFS predicts qualifier %q for %s after %v, the real generator emitted %q (%v)", q, path, preds[i].Pkgs, g, got)
+				if prop == "C11" {
+					// both sides are the code under test (the registry's decision vs. what the
+					// template rendered): a disagreement is a C11 violation, not a harness error
+					rep.Violate(&Violation{Diag: "imports: the emitted import block disagrees with the registry's decision", Case: "E2 conformance: " + strings.Join(preds[i].Pkgs, " ; "),
+						Detail:   fmt.Sprintf("registry qualifier for %s is %q, the generated file says %q (imports %v)", path, q, g, got),
+						Features: []string{"e2:conformance"}, Replay: map[string]any{"engine": "E2", "mode": "conformance", "pkgs": preds[i].Pkgs}})
 				}
 			}
 		}
